@@ -28,7 +28,8 @@ RULE += (
     "ended by ONE stopall(). Replacement kind 'frozen_type' (a callable class that has a __dict__ but rejects "
     "attribute assignment, like builtin and extension types). A sixth convention: yield async_call.asynq(f) "
     "from a task driven by asyncio. Every second cell makes its replacements RETURN a future object "
-    "(ConstFuture / lazy Future), which every convention must pass on untouched and uncomputed."
+    "(ConstFuture / lazy Future), which every convention must pass on untouched and uncomputed. Replacement "
+    "kind asynq_fn (an @asynq() generator function given as new) is held to the statement's four conventions."
 )
 ASSUMPTIONS = ["unittest.mock itself is trusted"]
 UNIT_TIMEOUT = {"quick": 200, "thorough": 600}
